@@ -8,6 +8,8 @@ from sa import rules_r6 as R6
 from sa import report, effects as E, rules_registry as RR
 from sa import rules_extra as RX
 
+from sa import rules_r12 as R12
+
 
 def run(ctx, repo):
     ctx.explanation = (
@@ -36,6 +38,7 @@ def run(ctx, repo):
     ctx.call(R10.r_metaclass_own_targets, repo)
     ctx.call(RSB.r_class_composition, repo)
     ctx.call(R6B.r_yamlobject_loaders, repo)
+    ctx.call(R12.r_class_state_writers_offline, repo)
 
 
 if __name__ == '__main__':
